@@ -219,7 +219,11 @@ def make_case(rng, cid, scheme, tier, opts=None):
     c.set("npts", npts)
     dim = 1 if scheme in UNIVARIATE else num_vars
     for j in range(npts):
-        c.set("pt.%d" % j, [rf(rng, p) if rng.random() < 0.3 else rf_uniform(rng, p) for _ in range(dim)])
+        if dim > 1 and rng.random() < 0.35:
+            # hypercube-like points: coordinates 0 and 1 among random ones (fast paths of the multivariate provers)
+            c.set("pt.%d" % j, [rng.choice([0, 0, 1]) if rng.random() < 0.45 else rf_uniform(rng, p) for _ in range(dim)])
+        else:
+            c.set("pt.%d" % j, [rf(rng, p) if rng.random() < 0.3 else rf_uniform(rng, p) for _ in range(dim)])
     c.set("sponge_pre", [rf_uniform(rng, p) for _ in range(rng.randint(0, 2))])
     c.meta.update({"scheme": scheme, "shapes": shapes, "in_domain": True, "n": n, "npts": npts, "polys_equal": _equal_pairs(polys, p),
                    "bounds_sorted": sorted(set(bounds_list)) if bounds_list else [], "eff_s": eff_s, "s": s, "D": D,
@@ -613,7 +617,10 @@ def make_c19_case(rng, cid, scheme, tier, rung):
         opts["s"] = deg + rng.choice([0, 0, 1, 3])
         opts["D"] = opts["s"] + rng.choice([0, 2, 5])
         if scheme == "ipa":
-            opts["D"] = (1 << (opts["s"]).bit_length()) - 1 if (opts["s"] + 1) & opts["s"] else opts["s"]
+            # supported degrees at and around 2^k - 1, parameters equal to or larger than the trimmed key
+            opts["s"] = rng.choice([deg - 1, deg - 1, deg, deg + 1, deg + 3])
+            rounded = (1 << (opts["s"]).bit_length()) - 1 if (opts["s"] + 1) & opts["s"] else opts["s"]
+            opts["D"] = rng.choice([rounded, 2 * rounded + 1, 2 * rounded + 1, 4 * rounded + 3])
     elif scheme == "pst13":
         nv = rung
         opts["pst_grid"] = (nv, 2 if nv > 6 else rng.randint(1, 3))
@@ -631,7 +638,7 @@ def make_c19_case(rng, cid, scheme, tier, rung):
     if scheme in UNIVARIATE:
         for i in range(n):
             b = c.fields["bound.%d" % i][0]
-            d = deg if b == "none" else min(deg, int(b))
+            d = min(deg, int(c.fields["supported_degree"][0])) if b == "none" else min(deg, int(b))
             if scheme == "ligero_uni" and i > 0 and rng.random() < 0.5:
                 d = rng.randint(1, deg)           # polynomials of different sizes in one scenario
             c.set("poly.%d" % i, [rf_uniform(rng, p) for _ in range(d)] + [rf_nz(rng, p)])
